@@ -93,13 +93,47 @@ def cpp_facts():
     """declared-type facts of the C++ runtime used by the concurrency model (C15)"""
     facts = {}
     td = open(os.path.join(KOJEN, "allplatforms", "CPP", "threaded_dispatcher.h")).read()
-    m = re.search(r"^\s*([A-Za-z_:<> ]+?)\s+m_shutting_down\s*(?:=[^;]*|\{[^;]*\})?;", td, re.M)
+    m = re.search(r"^\s*([A-Za-z_][A-Za-z_:<> ]*?)\s+m_shutting_down\s*(?:=[^;]*|\{[^;]*\})?;", td, re.M)
     decl = m.group(1).strip() if m else ""
     facts["shuttingDownAtomic"] = "atomic" in decl
     tq = open(os.path.join(KOJEN, "allplatforms", "CPP", "threadsafe_queue.h")).read()
-    m = re.search(r"^\s*([A-Za-z_:<> ]+?)\s+m_stopped\s*(?:=[^;]*|\{[^;]*\})?;", tq, re.M)
+    m = re.search(r"^\s*([A-Za-z_][A-Za-z_:<> ]*?)\s+m_stopped\s*(?:=[^;]*|\{[^;]*\})?;", tq, re.M)
     decl = m.group(1).strip() if m else ""
     facts["stoppedAtomic"] = "atomic" in decl
+    # every member function of threadsafe_queue that touches m_data / m_stopped takes m_mutex first
+    # (constructor / destructor excepted: no concurrent access is allowed there)
+    bodies = re.findall(r"\n\s*(?:[\w:<>&\s\*]+?)\s+(\w+)\s*\([^)]*\)\s*(?:const)?\s*\{(.*?)\n        \}", tq, re.S)
+    locked = True
+    nmeth = 0
+    for name, body in bodies:
+        if "m_data" in body or "m_stopped" in body:
+            nmeth += 1
+            first = body.strip().splitlines()[0] if body.strip() else ""
+            inner = re.search(r"\{\s*std::(?:lock_guard|unique_lock|scoped_lock)<std::mutex>\s+\w+\(m_mutex\);", body)
+            if not (re.match(r"\s*std::(?:lock_guard|unique_lock|scoped_lock)<std::mutex>\s+\w+\(m_mutex\);", first) or inner):
+                locked = False
+    facts["queueMethodsLocked"] = locked and nmeth >= 6
+    # side conditions of modelling a condition wait as "may proceed exactly when its predicate holds":
+    # every wait has the predicate (!empty || stopped), every push notifies, wake_up sets the flag under the
+    # mutex and notifies all waiters
+    waits = [l for l in tq.splitlines() if "m_cond.wait" in l]
+    facts["waitsHavePredicate"] = len(waits) >= 1 and all(re.search(r"!m_data\.empty\(\)\s*\|\|\s*m_stopped", w) for w in waits)
+    by_name = {}
+    for name, body in bodies:
+        by_name.setdefault(name, []).append(body)
+    pushes = by_name.get("push", [])
+    facts["pushNotifies"] = len(pushes) >= 1 and all(re.search(r"m_cond\.notify_(one|all)\(\)", b) for b in pushes)
+    wk = by_name.get("wake_up", [])
+    facts["wakeNotifiesAll"] = len(wk) == 1 and re.search(r"m_stopped\s*=\s*true;.*m_cond\.notify_all\(\)", wk[0], re.S) is not None
+    # the worker re-tests the shutdown flag after every pop, before handing the item over
+    facts["workerRetestsFlag"] = re.search(r"wait_and_pop\(\)\)\s*&&\s*\(?\s*!m_shutting_down", td) is not None
+    # the worker hand-shake lives in stop(), the base destructor calls it, and the generated state machine
+    # implementation calls it first thing in its own destructor
+    has_stop = re.search(r"void stop\(\)\s*\{[^}]*m_shutting_down = true;[^}]*m_queue\.wake_up\(\);[^}]*join\(\)", td, re.S) is not None
+    dtor_calls = re.search(r"~threaded_dispatcher\(\)\s*\{\s*stop\(\);\s*\}", td) is not None
+    tpl = open(os.path.join(KOJEN, "statemachine_templates_embedded_arm", "TEMPLATEStateMachineImpl_SML.cpp")).read()
+    impl_calls = re.search(r"~C<<<STATEMACHINENAME>>>StateMachineImpl\(\)\s*\{[^}]*\bstop\(\);", tpl, re.S) is not None
+    facts["dispatcherStopFirst"] = has_stop and dtor_calls and impl_calls
     return facts
 
 
